@@ -330,7 +330,7 @@ def blocking_corr(seed, tier):
     cases = []
     for i in range(120 if tier == 'quick' else 2500):
         cap, plans = _blocking_plans(rng)
-        mode = ['uniform', 'sticky', 'pct'][i % 3]
+        mode = ['uniform', 'sticky', 'pct', 'stall'][i % 4]
         events, fail, sch, sem = blocking_run(rng.randrange(1 << 30), cap, plans, mode)
         ops = [('bsema new %d' % cap, 'ok')]
         for st, lab, out in events:
@@ -383,7 +383,7 @@ def blocking_oracle(seed, tier, prop='C12'):
     rng = rng_for(seed, 'sema-blocking-oracle')
     for i in range(150 if tier == 'quick' else 3000):
         cap, plans = _blocking_plans(rng)
-        mode = ['uniform', 'sticky', 'pct'][i % 3]
+        mode = ['uniform', 'sticky', 'pct', 'stall'][i % 4]
         events, fail, sch, sem = blocking_run(rng.randrange(1 << 30), cap, plans, mode)
         res.evaluations += 1
         worst, at = window_used(events)
@@ -486,7 +486,7 @@ def cci_conc_corr(seed, tier):
     for i in range(300 if tier == 'quick' else 6000):
         nparts = rng.randrange(1, 5)
         early = rng.randrange(0, nparts + 1)
-        mode = ['uniform', 'sticky', 'pct'][i % 3]
+        mode = ['uniform', 'sticky', 'pct', 'stall'][i % 4]
         events, fired, fail, sch, cci = cci_run(rng.randrange(1 << 30), nparts, mode, early)
         case = {'parts': nparts, 'may_finish_before_finalize': early, 'mode': mode, 'schedule': sch.choices[:200]}
         ops = [('cci new', 'ok')] + [(lab, out) for _, lab, out in events] + [('cci count', str(cci._count))]
@@ -508,7 +508,7 @@ def cci_conc_oracle(seed, tier):
     for i in range(400 if tier == 'quick' else 8000):
         nparts = rng.randrange(1, 5)
         early = rng.randrange(0, nparts + 1)
-        mode = ['uniform', 'sticky', 'pct'][i % 3]
+        mode = ['uniform', 'sticky', 'pct', 'stall'][i % 4]
         events, fired, fail, sch, cci = cci_run(rng.randrange(1 << 30), nparts, mode, early)
         res.evaluations += 1
         order = tuple(l.split()[1] for _, l, _ in events)
